@@ -76,8 +76,10 @@ class _ParsedValues:
     description: list[str] = field(default_factory=list)
     parameters: dict[str, DocstringParameter] = field(default_factory=dict)
     param_types: dict[str, str] = field(default_factory=dict)
+    params_annotated_from_signature: set[str] = field(default_factory=set)
     attributes: dict[str, DocstringAttribute] = field(default_factory=dict)
     attribute_types: dict[str, str] = field(default_factory=dict)
+    attributes_annotated_from_parent: set[str] = field(default_factory=set)
     exceptions: list[DocstringRaise] = field(default_factory=list)
     return_value: DocstringReturn | None = None
     return_type: str | None = None
@@ -205,6 +207,8 @@ def _determine_param_annotation(
             annotation = docstring.parent.parameters[name.lstrip()].annotation  # type: ignore[union-attr]
         except (AttributeError, KeyError):
             docstring_warning(docstring, 0, f"No matching parameter for '{name}'")
+        else:
+            parsed_values.params_annotated_from_signature.add(name)
 
     return annotation
 
@@ -229,8 +233,10 @@ def _read_parameter_type(
     parsed_values.param_types[param_name] = param_type
     param = parsed_values.parameters.get(param_name)
     if param is not None:
-        if param.annotation is None:
+        if param.annotation is None or param_name in parsed_values.params_annotated_from_signature:
+            # A type given in the docstring takes precedence over the signature's annotation.
             param.annotation = param_type
+            parsed_values.params_annotated_from_signature.discard(param_name)
         else:
             docstring_warning(docstring, 0, f"Duplicate parameter information for '{param_name}'")
     return parsed_directive.next_index
@@ -275,6 +281,8 @@ def _read_attribute(
             annotation=annotation,
             description=parsed_directive.value,
         )
+        if parsed_attribute_type is None and annotation is not None:
+            parsed_values.attributes_annotated_from_parent.add(name)
 
     return parsed_directive.next_index
 
@@ -299,8 +307,10 @@ def _read_attribute_type(
     parsed_values.attribute_types[attribute_name] = attribute_type
     attribute = parsed_values.attributes.get(attribute_name)
     if attribute is not None:
-        if attribute.annotation is None:
+        if attribute.annotation is None or attribute_name in parsed_values.attributes_annotated_from_parent:
+            # A type given in the docstring takes precedence over the parent's annotation.
             attribute.annotation = attribute_type
+            parsed_values.attributes_annotated_from_parent.discard(attribute_name)
         else:
             docstring_warning(docstring, 0, f"Duplicate attribute information for '{attribute_name}'")
     return parsed_directive.next_index
